@@ -72,12 +72,12 @@ CHECKS = {
    "Trusted: the variant writer only produces CSS-insignificant differences; a hang is declared after 60 s without progress on one string.",
    "property-based testing + grammar-based fuzzing (proptest; robustness oracle and metamorphic spelling variants)"),
  "C18": ("exploration",
-   "Differential: the hidden set is computed by the harness's own selector matcher and cascade on the oracle DOM; rendering with the CSS must be byte-identical (and tagged-line-identical for rich) to rendering the re-serialised oracle DOM with the hidden subtrees removed and all styles stripped; with use_doc_css off the document must render as with its styles stripped.",
+   "Differential: the hidden set is computed by the harness's own selector matcher and cascade on the oracle DOM; rendering with the CSS must be byte-identical (and tagged-line-identical for rich) to rendering the re-serialised oracle DOM with the hidden subtrees removed and all styles stripped; with use_doc_css off the document must render as with its styles stripped. Hiding declarations: display:none, the zero-height + hidden-overflow idiom in several spellings (0, 0px, 0em, 0.0pt, max-height, overflow-y), and near misses of the idiom that must hide nothing (overflow visible/auto/scroll, non-zero heights, one half alone).",
    "Trusted: the oracle DOM serialiser (validated per case by a round trip; mismatches discarded and counted); hide-only sheets (a losing display:none still hiding is a known finding).",
    "property-based testing (proptest; differential against deletion on an independent oracle DOM)"),
  "C19": ("exploration",
-   "Reference-model oracle: the harness's own cascade (importance-and-origin rank, inline, specificity, source order). Exhaustive over all ordered pairs (both properties) and all ordered triples of 32 declaration kinds on one element through all four delivery routes; random agent+user+author sheets and inline styles over nested documents compared as full annotation vectors.",
-   "Trusted: the reference cascade (20 lines) and reference matcher; unique colour per declaration identifies the winner.",
+   "Reference-model oracle: the harness's own cascade (importance-and-origin rank, inline, specificity, source order). Exhaustive over all ordered pairs (both properties) and all ordered triples of 32 declaration kinds on one element through all four delivery routes, every triple also with one declaration restating an earlier one's value; random agent+user+author sheets and inline styles over nested documents compared as full annotation vectors.",
+   "Trusted: the reference cascade (20 lines) and reference matcher; unique colour per declaration (or, in the restated triples, per value) identifies the winner.",
    "bounded-exhaustive enumeration + property-based testing (proptest) against a reference cascade"),
  "C20": ("exploration",
    "Reference-model oracle: an independent right-to-left selector matcher with backtracking over the oracle DOM; a single colour rule on a generated selector list must colour exactly the text under matching elements, once per matching ancestor (full annotation vectors). Selectors are derived from the document's own elements (so they match) or random; exhaustive :nth-child(an+b) for a,b in -5..=5 in 4 spellings on sibling lists of length 0..=8.",
